@@ -56,6 +56,13 @@ func (ss *segmentStack) decRef() {
 			ss.lowerLevelSnapshot.Close()
 			ss.lowerLevelSnapshot = nil
 		}
+
+		// A segment stack owns one ref-count on each of its child
+		// segment stacks (and, through them, on their lower level
+		// snapshots).
+		for _, childSegStack := range ss.childSegStacks {
+			childSegStack.decRef()
+		}
 	}
 	ss.m.Unlock()
 }
